@@ -92,42 +92,33 @@ pub(crate) fn parse_offset(chars: &mut Peekable<Chars<'_>>) -> TemporalResult<Op
     // We continue parsing for correctness, but we only care about
     // minute precision
 
-    let next_peek = chars.peek();
-    match next_peek {
+    // The seconds element must use the same format as the minutes (`:` iff extended).
+    match chars.peek() {
+        None => return Ok(result),
         Some(&':') if sep => _ = chars.next(),
-        Some(&':') => {
+        Some(ch) if ch.is_ascii_digit() && !sep => {}
+        Some(_) => {
             return Err(TemporalError::range().with_message("offset separators do not align."))
         }
-        Some(_) => _ = parse_digit_pair(chars)?,
-        None => return Ok(result),
     }
+    let _seconds = parse_digit_pair(chars)?;
 
-    let potential_fraction = chars.next();
-    match potential_fraction {
-        Some(ch) if ch == '.' || ch == ',' => {
-            if !chars.peek().is_some_and(|ch| ch.is_ascii_digit()) {
-                return Err(
-                    TemporalError::range().with_message("fraction separator must have digit after")
-                );
-            }
-        }
+    match chars.next() {
+        None => return Ok(result),
+        Some(ch) if ch == '.' || ch == ',' => {}
         Some(_) => return Err(TemporalError::range().with_message("Invalid offset")),
-        None => return Ok(result),
     }
 
-    for _ in 0..9 {
-        let digit_or_end = chars.next().map(|ch| ch.is_ascii_digit());
-        match digit_or_end {
-            Some(true) => {}
-            Some(false) => {
-                return Err(TemporalError::range().with_message("Not a valid fractional second"))
-            }
-            None => break,
+    // One to nine fractional digits, then the end of the string.
+    let mut digits = 0;
+    for ch in chars {
+        if !ch.is_ascii_digit() {
+            return Err(TemporalError::range().with_message("Not a valid fractional second"));
         }
+        digits += 1;
     }
-
-    if chars.peek().is_some() {
-        return Err(TemporalError::range().with_message("Invalid offset"));
+    if !(1..=9).contains(&digits) {
+        return Err(TemporalError::range().with_message("Not a valid fractional second"));
     }
 
     Ok(result)
